@@ -284,7 +284,7 @@ extern "C" void asl_verif_spin(const volatile void* flag) { yield_spin(flag); }
 extern "C" int pthread_create(pthread_t* th, const pthread_attr_t* attr, void* (*fn)(void*), void* arg) {
 	resolve();
 	if (!managed()) return real_create(th, attr, fn, arg);
-	if (nT >= MAXT) fatal("STEP_LIMIT");
+	if (nT >= MAXT) fatal("TOO_MANY_THREADS");
 	int id = nT;
 	memset(&T[id], 0, sizeof(Th));
 	T[id].fn = fn; T[id].arg = arg; T[id].state = ST_LIVE;
